@@ -74,4 +74,64 @@ def chosenCovered (s : TState) (a : AllocReq) (ms : List Nat) : Bool :=
                    | some f => coveredB a.req f
                    | none => true)
 
+/-! ### informer events: eventhandler_pod.go updatePod / deletePod, seen from ONE device type
+
+A pod object as the handlers read it: `assigned` ⇔ `Spec.NodeName != ""`, `terminated` ⇔ `util.IsPodTerminated`,
+`alloc` = the entry of this device type in the `device-allocated` annotation (`none`: the annotation is absent or
+does not mention the type).  The functions return the ledger ops the handler performs, in order. -/
+
+structure PodObj where
+  assigned   : Bool
+  terminated : Bool
+  alloc      : Option (List (Nat × RL))
+deriving Repr
+
+/-- deletePod: `if NodeName == "" return`; `updateCacheUsed(annotation of THIS object, pod, false)` -/
+def deletePodOps (p : Nat) (o : PodObj) : List Op :=
+  if !o.assigned then [] else
+    match o.alloc with
+    | none => []
+    | some al => [Op.remove p al]
+
+/-- updatePod(oldPod, pod):
+    new object unassigned ⇒ `deletePod(oldPod)` when the old one was assigned, else nothing;
+    new object terminated ⇒ `deletePod(pod)` — the NEW object's annotation is subtracted;
+    otherwise release the OLD object's allocation (only if the old object was assigned and carries one) and then
+    add the NEW object's. -/
+def updatePodOps (p : Nat) (old : Option PodObj) (new : PodObj) : List Op :=
+  if !new.assigned then
+    match old with
+    | some o => if o.assigned then deletePodOps p o else []
+    | none => []
+  else if new.terminated then deletePodOps p new
+  else
+    (match old with
+     | some o => if o.assigned then (match o.alloc with
+                                     | some al => [Op.remove p al]
+                                     | none => []) else []
+     | none => []) ++
+    (match new.alloc with
+     | some al => [Op.add p al]
+     | none => [])
+
+/-- one informer event -/
+inductive Ev where
+  | podAdd (p : Nat) (o : PodObj)                 -- onPodAdd = updatePod(nil, pod)
+  | podUpdate (p : Nat) (old new : PodObj)        -- onPodUpdate
+  | podDelete (p : Nat) (o : PodObj)              -- onPodDelete = deletePod(pod)
+  | reserve (p : Nat) (al : List (Nat × RL))      -- Plugin.Reserve: updateCacheUsed(result, pod, true)
+  | unreserve (p : Nat) (al : List (Nat × RL))    -- Plugin.Unreserve: updateCacheUsed(result, pod, false)
+  | device (nt : DevRes)                          -- updateNodeDevice / invalidateNodeDevice
+deriving Repr
+
+def evOps : Ev → List Op
+  | .podAdd p o => updatePodOps p none o
+  | .podUpdate p old new => updatePodOps p (some old) new
+  | .podDelete p o => deletePodOps p o
+  | .reserve p al => [Op.add p al]
+  | .unreserve p al => [Op.remove p al]
+  | .device nt => [Op.refresh nt]
+
+def runEv (s : TState) (evs : List Ev) : TState := run s (evs.flatMap evOps)
+
 end KoordVerif.C07
